@@ -109,6 +109,8 @@ def make_body(name, script, rec):
                         raise EXN[kind]("fail%d" % rinfo.retry_number)
                 elif op == "on_cancel_publish":
                     pass
+                elif op == "sleep":
+                    await asyncio.sleep(a[1])
                 elif op == "raise_seq":
                     # raise the k-th exception object of the list on the execution with retry number k
                     if rinfo is not None and rinfo.retry_number < len(a[1]):
